@@ -1,6 +1,9 @@
 """C06 - pixel transforms follow the DICOM pipeline and the tri-state flags.
 
 Implementation driven (real code from $VERIF_REPO/src):
+  (histories: one object asked several times, with the stored-value cache filled, in the stored dtype - every read
+  must equal the stored values through the stages and leave them alone; per-frame transforms x every option of the
+  several-frames accessors)
   (tables and input arrays are handed over in drawn numpy memory layouts: byte order, strides, offsets,
   read-only / unaligned buffers - the results must depend on the logical values only)
   hd.Image.from_dataset(...).get_frame / get_frames / get_volume / get_total_pixel_matrix and
@@ -41,13 +44,17 @@ MODELLED = ('image.py _CombinedPixelTransform.__init__ (flag gate, discovery roo
             'get_total_pixel_matrix) transform reuse; get_volume_from_series; pixels.py selectors, apply_voi_window, apply_lut, '
             '_check_rescale_dtype, palette LUT parsing; content.py LUT (descriptor, lut_data, scaled, inverted, '
             'apply), VOILUTTransformation.apply; pm/content.py RealWorldValueMapping.apply; LUT.__init__ over the memory '
-            'layout of the array it is given (nparr: buffer, byte offset, byte stride, item size, byte order)')
+            'layout of the array it is given (nparr: buffer, byte offset, byte stride, item size, byte order); histories of '
+            'one image object / one series (PixelData + stored-value cache; reads are fed from the cache and write nothing)')
 STRATA = ['mono', 'mono_mf', 'mono_mf_nonuniform', 'mono_vol', 'series', 'series_voi', 'series_attr', 'tpm', 'flags', 'palette', 'lut', 'lut_big', 'lut_err', 'voi_apply', 'rwvm_apply',
-          'window', 'malformed', 'lut_layout', 'mono_lut_layout']
+          'window', 'malformed', 'lut_layout', 'mono_lut_layout', 'mono_hist', 'series_hist', 'mf_options']
 NOT_EXECUTED = ['ICC colour management (no ICC profile in the synthetic images; out of the property)',
                 'segmented palette colour LUTs (the code raises RuntimeError: not implemented)',
                 'slice / row / column sub-ranges of get_volume and get_total_pixel_matrix (whole stacks and whole '
                 'matrices are driven; the spatial arguments belong to C03 / C08 / C11)',
+                'float-valued pixel data in histories (FloatPixelData / DoubleFloatPixelData cannot be read through the '
+                'image interface: open finding D35); lazily read files; aliasing of a returned frame with the cache when '
+                'nothing is applied (not judged: the harness never writes into returned arrays)',
                 ]
 RULE = ('mono: single-frame images, random modality (rescale integer / dyadic / LUT 8,16 bit), VOI (1-3 windows with '
         'LINEAR / LINEAR_EXACT / SIGMOID, explanations; VOI LUTs), MONOCHROME1/2 + PresentationLUTShape, RWVM linear / '
@@ -75,13 +82,30 @@ RULE = ('mono: single-frame images, random modality (rescale integer / dyadic / 
         'stand-alone tables in every preset layout (each at least twice per run) + random ones through the four LUT classes, '
         'in memory and after a file round trip; observed: descriptor, the stored LUTData bytes, lut_data, apply; the model is '
         'given the array MEMORY (buffer, offset, stride, item size, byte order). mono_lut_layout: images whose Modality LUT / '
-        'VOI LUTs / user VOI LUT were built from non-native arrays (75 % big-endian), read through get_frame / get_frames')
+        'VOI LUTs / user VOI LUT were built from non-native arrays (75 % big-endian), read through get_frame / get_frames. '
+        'HISTORIES (mono_hist, series_hist): ONE object is asked several times - .pixel_array (fills the stored-value cache '
+        'every later read is fed from), get_frame / get_frames / get_volume / get_total_pixel_matrix in the STORED dtype (the '
+        'only one in which a transform can work in place on the array it is handed), in other dtypes, get_stored_frame, and '
+        '.pixel_array again at the end; transforms drawn from: rescale with slope 1 and intercept k (CT), slope m and k, '
+        'identity rescale, nothing to apply, bare / rescaled inversion (MONOCHROME1), real world value map with slope 1, '
+        'window, random; parameters at root / shared / per frame (different per frame); single-frame, multi-frame stack and '
+        'tiled images; series_hist: hd.get_volume_from_series called two or three times on the SAME datasets (pydicom caches '
+        'their pixel_array), the datasets\' pixel_array observed afterwards.  EVERY operation of a history is observed and '
+        'judged (each read = stored values through the stages; stored values unchanged).  The input arrays of LUT.apply / '
+        'VOILUTTransformation.apply / RealWorldValueMapping.apply / apply_voi_window must be left unchanged.  '
+        'mf_options: multi-frame images whose combined transform is NOT shared by all frames (windows per frame, rescale per '
+        'frame with shared windows or root VOI LUTs, both per frame, real world value maps per frame - each different in every '
+        'frame) read through get_volume, get_total_pixel_matrix (TILED_SPARSE with per-frame groups) and get_frames with ONE '
+        'option away from its default so that it changes the values: VOI selector 1 / -1 / explanation (order permuted per '
+        'frame) / user window / user LUT / root VOI LUT index, real world value map selector (index, label, unit), output '
+        'range, presentation inversion, modality False, VOI False, real world False, output dtype; every focus x every '
+        'accessor is drawn in every run')
 EXHAUSTIVE = {'quick': False, 'thorough': False}
 
 TRI = [True, False, None]
 FN = ['LINEAR', 'LINEAR_EXACT', 'SIGMOID']
 MONO_KINDS = ('mono', 'mono_mf', 'flags', 'malformed', 'mono_vol', 'series', 'series_voi', 'series_attr', 'tpm',
-              'mono_mf_nonuniform', 'mono_lut_layout')
+              'mono_mf_nonuniform', 'mono_lut_layout', 'mono_hist', 'series_hist', 'mf_options')
 DTYPES = ['float64', 'float64', 'float64', 'float32', 'int16', 'uint16', 'int32', 'uint8', 'int64']
 
 
@@ -966,6 +990,28 @@ def gen_cases(rng, tier):
         extra.append(_lut_layout_case(lrng, preset=i % len(LAYOUT_PRESETS) if i < 2 * len(LAYOUT_PRESETS) else None))
     for _ in range(45 * n):
         extra.append(_mono_lut_layout_case(lrng))
+    # histories: every shape x every transform at least once per run, then random ones
+    hrng = random.Random(lrng.getrandbits(64))
+    combos = [(sh, tr) for tr in sorted(set(HIST_TRANSFORMS)) for sh in ('single', 'multi', 'tpm')]
+    hrng.shuffle(combos)
+    for i in range(60 * n):
+        sh, tr = combos[i] if i < len(combos) else (None, None)
+        c = _hist_case(hrng, sh, tr)
+        _assign_layouts(hrng, c)
+        extra.append(c)
+    for i in range(24 * n):
+        c = _series_hist_case(hrng, ['icpt', 'slope_icpt', 'identity', 'none', 'icpt_invert', 'rwvm', 'window'][i]
+                              if i < 7 else None)
+        _assign_layouts(hrng, c)
+        extra.append(c)
+    # every focus x every accessor at least once per run
+    combos = [(f, a) for f in MF_FOCUS for a in MF_APIS]
+    hrng.shuffle(combos)
+    for i in range(66 * n):
+        f, a = combos[i] if i < len(combos) else (None, None)
+        c = _mf_options_case(hrng, f, a, strict=i < len(combos))
+        _assign_layouts(hrng, c)
+        extra.append(c)
     for c in extra:
         cases.insert(lrng.randrange(len(cases) + 1), c)
     return cases
@@ -1105,6 +1151,344 @@ def _mono_lut_layout_case(rng):
     c['kind'] = 'mono_lut_layout'
     for l in _each_lut(c):
         l['layout'] = _rand_layout(rng, 0.0, 0.75)
+    return c
+
+
+# --------------------------------------------------------------------------
+# histories: ONE object asked several times (stored-value cache, reads in the stored dtype)
+# --------------------------------------------------------------------------
+def _stored_dtype_name(c):
+    return {(8, False): 'uint8', (8, True): 'int8', (16, False): 'uint16', (16, True): 'int16'}[(c['alloc'], c['signed'])]
+
+
+HIST_TRANSFORMS = ['icpt', 'icpt', 'icpt', 'slope_icpt', 'identity', 'none', 'invert', 'icpt_invert', 'rwvm', 'window',
+                   'random']
+HIST_SHAPES = ['single', 'single', 'multi', 'multi', 'tpm']
+
+
+def _hist_base(rng, shape, tr):
+    """an image on which a read in the STORED dtype is acceptable (BitsStored < BitsAllocated leaves head
+    room for the intercept): single frame, multi-frame stack (get_volume applies) or tiled (tpm)"""
+    if tr == 'random':
+        c = _tpm_case(rng) if shape == 'tpm' else _vol_case(rng) if shape == 'multi' else _mono_case(rng, False)
+        c.pop('prior', None)
+        if c['dtype'] == 'float32':
+            c['dtype'] = 'float64'
+        return c
+    signed = False if shape == 'tpm' else rng.random() < 0.6
+    alloc = 8 if shape == 'tpm' else rng.choice([16, 16, 16, 8])
+    stored = rng.choice([10, 12, 12]) if alloc == 16 else rng.choice([4, 5, 6])
+    lo, hi = (-(2 ** (stored - 1)), 2 ** (stored - 1) - 1) if signed else (0, 2 ** stored - 1)
+    rows, cols = rng.choice([(1, 2), (2, 2), (2, 3), (1, 1)])
+    grid = rng.choice([(1, 2), (2, 1), (2, 2)])
+    nframes = {'single': 1, 'multi': rng.choice([2, 3]), 'tpm': grid[0] * grid[1]}[shape]
+    plo, phi = max(lo, -300), min(hi, 700)
+    frames = [_pixels(rng, rows * cols, plo, phi) for _ in range(nframes)]
+    for fr in frames:
+        if len(set(fr)) == 1 and len(fr) > 1:
+            fr[0] = plo if fr[0] != plo else phi
+    c = {'kind': 'mono_hist', 'signed': signed, 'alloc': alloc, 'stored': stored, 'rows': rows, 'cols': cols,
+         'frames': frames, 'mono1': False, 'pls': None, 'modlut': None, 'voiluts': None, 'root': _empty_level(),
+         'shared': None if shape == 'single' else _empty_level(),
+         'perframe': None if shape in ('single', 'tpm') else [_empty_level() for _ in range(nframes)],
+         'vsel': 0, 'rsel': 0, 'yrange': ['0', '1'], 'fi': 0,
+         'flags': {'rwvm': False, 'mod': rng.choice([None, None, True]), 'voi': False, 'pres': True, 'pal': None,
+                   'icc': None}}
+    if shape == 'multi':
+        zs = [2.5 * i for i in range(nframes)]
+        rng.shuffle(zs)
+        c['zs'] = zs
+    if shape == 'tpm':
+        c['grid'] = list(grid)
+        if rng.random() < 0.5:
+            c['perframe'] = [_empty_level() for _ in range(nframes)]
+    ks = ([-1024, -1024, 50, 7, -3, 1000] if signed else [50, 1024, 7, 1]) if alloc == 16 else \
+        ([10, -3, 7] if signed else [10, 7, 100])
+
+    def levels(per_frame_values):
+        """the levels that carry the parameter: root (single), shared, or every per-frame group (with a
+        different value in every frame when a list of values is given)"""
+        if shape == 'single':
+            return [c['root']]
+        if c['perframe'] is not None and rng.random() < 0.5:
+            return c['perframe']
+        return [c['shared']]
+    if tr in ('icpt', 'slope_icpt', 'identity', 'icpt_invert'):
+        m = 1 if tr != 'slope_icpt' else rng.choice([2, 3] + ([-1] if signed else []))
+        lv = levels(True)
+        kk = rng.sample(ks, min(len(ks), len(lv))) if len(lv) > 1 else [rng.choice(ks)]
+        if alloc == 8 and m != 1:
+            kk = [rng.choice([10, 7]) for _ in lv]
+        for i, l in enumerate(lv):
+            l['slope'] = str(m)
+            l['icpt'] = '0' if tr == 'identity' else str(kk[i % len(kk)])
+    if tr in ('invert', 'icpt_invert'):
+        c['mono1'] = True
+        c['pls'] = rng.choice([None, None, 'INVERSE'])
+        if tr == 'invert':
+            c['flags']['mod'] = None
+    if tr == 'rwvm':
+        lv = levels(True)
+        for i, l in enumerate(lv):
+            l['rwvm'] = [{'label': 'L0', 'unit': 0, 'kind': 'lin', 'slope': '1', 'icpt': str(rng.choice(ks)),
+                          'first': lo, 'last': hi, 'dbl': False}]
+        c['flags'].update(rwvm=rng.choice([None, True]), mod=None)
+    if tr == 'window':
+        lv = levels(False)
+        m, b = rng.choice([(1, ks[0]), (2, 0), (1, 0)])
+        for l in lv:
+            l['slope'], l['icpt'] = str(m), str(b)
+            vlo, vhi = _value_range(c, m, b)
+            l['win'] = _window_on(rng, vlo, vhi, 1, None, rng.choice([None] + FN))
+        c['flags'].update(voi=rng.choice([None, True]), mod=None)
+    if tr == 'none':
+        c['flags']['mod'] = None
+    sd = _stored_dtype_name(c)
+    c['dtype'] = 'float64' if tr == 'window' else (sd if rng.random() < 0.7 else
+                                                   rng.choice(['float64', 'int32', 'int16', 'int64']))
+    return c
+
+
+def _hist_ops(rng, c, shape):
+    """a history: reads of the same frames in the case's dtype (mostly the stored dtype) and in other
+    dtypes, with the stored-value cache filled up front (75 %) or in between, closed by get_stored_frame and
+    .pixel_array (the stored values must still be what was written)"""
+    n = len(c['frames'])
+    main = c['dtype']
+    sd = _stored_dtype_name(c)
+    ft = rng.randrange(n)                       # the frame that is read again and again
+    others = [d for d in ('float64', 'int32', sd) if d != main]
+    if c['flags']['voi'] is not False and any(lv and lv['win'] for lv in [c['root'], c['shared']] + (c['perframe'] or [])):
+        others = ['float64']
+
+    def read(dt):
+        if shape == 'single':
+            return {'op': 'frame', 'dtype': dt, 'fi': 0}
+        r = rng.random()
+        if r < 0.4:
+            return {'op': 'frame', 'dtype': dt, 'fi': ft if rng.random() < 0.8 else rng.randrange(n)}
+        if r < 0.7:
+            return {'op': 'frames', 'dtype': dt,
+                    'fis': rng.choice([list(range(n)), [ft], [ft, ft], list(range(n - 1, -1, -1)), [n - 1, ft]])}
+        return {'op': 'tpm' if shape == 'tpm' else 'volume', 'dtype': dt}
+    ops = []
+    warm_first = rng.random() < 0.75
+    if warm_first:
+        ops.append({'op': 'touch'})
+    for i in range(rng.choice([2, 2, 3])):
+        ops.append(read(main if rng.random() < 0.8 else rng.choice(others)))
+        if not warm_first and i == 0:
+            ops.append({'op': 'touch'})
+    ops.append(read(rng.choice(others + [main])))
+    ops.append({'op': 'stored', 'fi': ft})
+    ops.append({'op': 'touch'})
+    return ops
+
+
+def _hist_case(rng, shape=None, tr=None):
+    shape = shape or rng.choice(HIST_SHAPES)
+    tr = tr or rng.choice(HIST_TRANSFORMS)
+    c = _hist_base(rng, shape, tr)
+    c.update(kind='mono_hist', api='hist', hshape=shape, htr=tr)
+    c['ops'] = _hist_ops(rng, c, shape)
+    return c
+
+
+def _series_hist_case(rng, tr=None):
+    """hd.get_volume_from_series called several times on the SAME datasets (it reads Dataset.pixel_array,
+    which pydicom caches on the dataset), then the datasets' pixel_array"""
+    tr = tr or rng.choice(['icpt', 'icpt', 'icpt', 'slope_icpt', 'identity', 'none', 'icpt_invert', 'rwvm', 'window'])
+    c = _hist_base(rng, 'single', tr)
+    n = rng.choice([2, 3, 3, 4])
+    c['frames'] = _more_frames(rng, c, n)
+    zs = [2.5 * i for i in range(n)]
+    rng.shuffle(zs)
+    roots = [dict(c['root']) for _ in range(n)]
+    if c['root']['icpt'] not in (None, '0') and c['root']['win'] is None and rng.random() < 0.5:
+        # another intercept on every slice (same sign: the stored dtype stays acceptable)
+        b = int(c['root']['icpt'])
+        for i, r in enumerate(roots):
+            r['icpt'] = str(b + (i if b > 0 else -i))
+    main = c['dtype']
+    sd = _stored_dtype_name(c)
+    others = ['float64'] if tr == 'window' else [d for d in ('float64', 'int32', sd) if d != main]
+    ops = [{'op': 'touch'}] if rng.random() < 0.4 else []
+    for _ in range(rng.choice([2, 2, 3])):
+        ops.append({'op': 'series', 'dtype': main if rng.random() < 0.8 else rng.choice(others)})
+    if rng.random() < 0.5:
+        ops.append({'op': 'series', 'dtype': rng.choice(others)})
+    ops.append({'op': 'touch'})
+    c.update(kind='series_hist', api='series_hist', zs=zs, slice_roots=roots, slice_over=None, ops=ops, htr=tr)
+    return c
+
+
+# --------------------------------------------------------------------------
+# mf_options: per-frame transforms x every option of the several-frames accessors
+# --------------------------------------------------------------------------
+MF_FOCUS = ['vsel_idx', 'vsel_neg', 'vsel_str', 'vsel_userwin', 'vsel_userlut', 'vsel_lut_idx', 'rsel', 'yrange',
+            'pres', 'mod_false', 'mod_true', 'voi_false', 'rwvm_false', 'dtype']
+MF_APIS = ['get_volume', 'tpm', 'get_frames']
+
+
+def _mf_options_case(rng, focus=None, api=None, strict=False):
+    """a multi-frame image whose combined transform differs from frame to frame, read in ONE call with one
+    option away from its default (the option must reach the transform of EVERY frame)"""
+    focus = focus or rng.choice(MF_FOCUS)
+    api = api or rng.choice(MF_APIS)
+    lut_focus = focus in ('vsel_userlut', 'vsel_lut_idx')
+    signed = False if (api == 'tpm' or lut_focus) else rng.random() < 0.4
+    alloc = 8 if api == 'tpm' else 16
+    stored = rng.choice([5, 6, 8]) if alloc == 8 else rng.choice([8, 10, 12])
+    if focus in ('rsel', 'rwvm_false', 'mod_true'):
+        stored = rng.choice([4, 5])
+    lo, hi = (-(2 ** (stored - 1)), 2 ** (stored - 1) - 1) if signed else (0, 2 ** stored - 1)
+    rows, cols = rng.choice([(1, 2), (2, 2), (2, 3)])
+    grid = rng.choice([(1, 2), (2, 1), (2, 2)])
+    n = grid[0] * grid[1] if api == 'tpm' else rng.choice([2, 3, 4])
+    frames = [_pixels(rng, rows * cols, lo, hi) for _ in range(n)]
+    for fr in frames:
+        if len(set(fr)) == 1 and len(fr) > 1:
+            fr[0] = lo if fr[0] != lo else hi
+    c = {'kind': 'mf_options', 'api': api, 'focus': focus, 'signed': signed, 'alloc': alloc, 'stored': stored,
+         'rows': rows, 'cols': cols, 'frames': frames, 'mono1': False, 'pls': None, 'modlut': None, 'voiluts': None,
+         'root': _empty_level(), 'shared': _empty_level(), 'perframe': [_empty_level() for _ in range(n)],
+         'vsel': 0, 'rsel': 0, 'yrange': ['0', '1'], 'dtype': 'float64', 'fi': 0,
+         'flags': {'rwvm': False, 'mod': rng.choice([None, None, True]), 'voi': rng.choice([None, True]),
+                   'pres': True, 'pal': None, 'icc': None}}
+    if api == 'tpm':
+        c['grid'] = list(grid)
+    else:
+        zs = [2.5 * i for i in range(n)]
+        rng.shuffle(zs)
+        c['zs'] = zs
+    if api == 'get_frames' and rng.random() < 0.5:
+        c['fis'] = rng.choice([list(range(n - 1, -1, -1)), [n - 1], [n - 1, 0], [1, 1], [0, n - 1]])
+    pf = c['perframe']
+    # ---- what differs from frame to frame
+    if focus in ('rsel', 'rwvm_false', 'mod_true'):
+        layout = 'R'
+    elif lut_focus:
+        layout = 'BL'
+    elif focus in ('mod_false', 'dtype'):
+        layout = 'B0'
+    else:
+        layout = rng.choice(['A', 'A', 'B', 'B', 'AB'])
+    c['layout'] = layout
+    k = rng.choice([2, 2, 3])
+    expl = [f'W{i}' for i in range(k)] if (focus == 'vsel_str' or rng.random() < 0.4) else None
+    fn = rng.choice([None, None, None, 'LINEAR', 'LINEAR_EXACT', 'LINEAR_EXACT', 'SIGMOID'])
+    if fn == 'SIGMOID':
+        # (the exp table handed to the model grows with windows x rescales x values: keep these small)
+        k = 2
+        expl = expl[:2] if expl else None
+        c['rows'], c['cols'] = 1, 2
+        c['frames'] = [fr[:2] if fr[0] != fr[1] else [lo, hi] for fr in frames]
+    if layout in ('B', 'AB', 'B0', 'BL'):
+        if layout == 'BL':
+            ms = [1] * n
+        elif focus == 'dtype':
+            ms = [rng.choice([1, 2, 3]) for _ in range(n)]
+            if (strict and api != 'get_frames') or rng.random() < 0.4:
+                # a slope that an integer dtype cannot take, NOT on the frame the up-front transform is built for
+                # (the dtype must reach the transform of every frame: the call is refused, not truncated)
+                ms[rng.randrange(1, n)] = F(3, 2)
+        else:
+            ms = [rng.choice([1, 2, 3, -1, F(1, 2), F(3, 2)]) for _ in range(n)]
+        bs = rng.sample([0, -100, 10, -3, 7, 100, 25, -50], n)
+        for lv, m, b in zip(pf, ms, bs):
+            lv['slope'], lv['icpt'] = str(m), str(b)
+        res = [(F(m), F(b)) for m, b in zip(ms, bs)]
+    else:
+        m, b = rng.choice([(None, None), (1, -100), (2, 10), (1, 0), (F(1, 2), 7)])
+        if m is not None:
+            c['shared']['slope'], c['shared']['icpt'] = str(m), str(b)
+        else:
+            c['flags']['mod'] = None
+        res = [(F(m or 1), F(b or 0))] * n
+    vlo = min(min(m_ * lo + b_, m_ * hi + b_) for m_, b_ in res)
+    vhi = max(max(m_ * lo + b_, m_ * hi + b_) for m_, b_ in res)
+    if layout in ('A', 'AB'):
+        prev = None
+        for i, lv in enumerate(pf):
+            a_, b_ = min(res[i][0] * lo, res[i][0] * hi) + res[i][1], max(res[i][0] * lo, res[i][0] * hi) + res[i][1]
+            w = _window_on(rng, a_, b_, k, list(expl) if expl else None, fn) if prev is None else \
+                _other_window(rng, a_, b_, prev)
+            if prev is not None:
+                w['expl'] = list(expl) if expl else None
+            if focus == 'vsel_str' and rng.random() < 0.5:
+                w['expl'] = list(reversed(w['expl']))     # the explanation sits at another index in this frame
+            lv['win'] = w
+            prev = w
+    elif layout == 'B':
+        c['shared']['win'] = _window_on(rng, vlo, vhi, k, list(expl) if expl else None, fn)
+    elif layout == 'BL':
+        c['voiluts'] = []
+        for i in range(2):
+            l = _lut(rng, lo_len=3, expl=f'V{i}', bits=16)
+            l['first'] = max(0, int(vlo) + rng.randint(0, 6))
+            c['voiluts'].append(l)
+        if focus == 'vsel_userlut' and rng.random() < 0.5:
+            c['voiluts'] = None
+            c['shared']['win'] = _window_on(rng, vlo, vhi, 1, None, None)
+    elif layout == 'R':
+        sl = rng.sample(['1', '2', '3/2', '-1', '1/4', '5', '3', '-2'], 2 * n)
+        for i, lv in enumerate(pf):
+            lv['rwvm'] = [{'label': f'L{j}', 'unit': j, 'kind': 'lin', 'slope': sl[2 * i + j], 'icpt': _q(rng, -50, 50),
+                           'first': lo, 'last': hi, 'dbl': False} for j in range(2)]
+            if rng.random() < 0.3:
+                lv['rwvm'].reverse()            # label / unit at another index in this frame
+        if focus in ('rwvm_false', 'mod_true') or rng.random() < 0.4:
+            bs = rng.sample([0, -100, 10, -3, 7, 100], n)
+            for lv, b in zip(pf, bs):
+                lv['slope'], lv['icpt'] = '1', str(b)
+        c['flags'].update(rwvm=rng.choice([None, True]), mod=None, voi=False)
+    # ---- the option away from its default
+    if focus == 'vsel_idx':
+        c['vsel'] = rng.choice([1, 1, k - 1])
+    elif focus == 'vsel_neg':
+        c['vsel'] = rng.choice([-1, -1, -k + 1] if k > 2 else [-1])
+    elif focus == 'vsel_str':
+        c['vsel'] = rng.choice(expl[1:])
+    elif focus == 'vsel_userwin':
+        c['vsel'] = {'userwin': [[str(vlo + (vhi - vlo) * F(rng.randint(2, 6), 8))],
+                                 [str(max(F(3), (vhi - vlo) * F(rng.choice([2, 3, 5]), 4)))]],
+                     'fn': rng.choice([None] + FN)}
+        c['flags']['voi'] = True
+    elif focus == 'vsel_userlut':
+        l = _lut(rng, lo_len=3, bits=16)
+        l['first'] = max(0, int(vlo) + rng.randint(0, 6))
+        c['vsel'] = {'userlut': [l]}
+        c['flags']['voi'] = True
+    elif focus == 'vsel_lut_idx':
+        c['vsel'] = rng.choice([1, -1, 'V1'])
+    elif focus == 'rsel':
+        c['rsel'] = rng.choice([1, -1, 'L1', {'code': 1}])
+    elif focus == 'yrange':
+        c['yrange'] = rng.choice([['0', '255'], ['-1', '1'], ['1/2', '3/4'], ['10', '20']])
+    elif focus == 'pres':
+        # the image asks for inversion, the caller switches the presentation stage off (default: on)
+        c['mono1'] = rng.random() < 0.7
+        c['pls'] = rng.choice([None, None, 'INVERSE']) if c['mono1'] else 'INVERSE'
+        c['flags']['pres'] = False
+    elif focus == 'mod_false':
+        c['flags'].update(mod=False, voi=False)
+    elif focus == 'voi_false':
+        c['flags']['voi'] = False
+    elif focus == 'rwvm_false':
+        # real world value maps present but switched off: the (per-frame) modality rescale applies instead
+        c['flags'].update(rwvm=False, mod=None, voi=False)
+    elif focus == 'mod_true':
+        # modality REQUIRED: the real world value maps (used when present, by default) are superseded
+        c['flags'].update(rwvm=None, mod=True, voi=False)
+    elif focus == 'dtype':
+        c['flags']['voi'] = False
+        c['dtype'] = rng.choice(['int32', 'int16', 'float32', 'int64'] if api == 'get_frames' else
+                                ['int32', 'int16', 'int64'])
+    # a second option away from its default now and then (pairs)
+    if focus.startswith('vsel') and rng.random() < 0.3:
+        c['yrange'] = rng.choice([['0', '255'], ['-1', '1']])
+    if focus in ('vsel_idx', 'vsel_neg', 'yrange') and rng.random() < 0.3:
+        c['mono1'] = True
     return c
 
 
@@ -1382,7 +1766,8 @@ def _build_tpm(c):
     nr, nc = c['grid']
     tiles = np.array(c['frames'], dtype=np.uint8).reshape(nr, nc, th, tw)
     tpm = tiles.transpose(0, 2, 1, 3).reshape(nr * th, nc * tw)
-    ds = synth.sm_tiled(nr * th, nc * tw, th, tw, samples=1, pixels=tpm)
+    # parameters in per-frame functional groups need a per-frame sequence: TILED_SPARSE
+    ds = synth.sm_tiled(nr * th, nc * tw, th, tw, samples=1, pixels=tpm, tiled_full=c.get('perframe') is None)
     ds.BitsStored, ds.HighBit = c['stored'], c['stored'] - 1
     ds.PhotometricInterpretation = 'MONOCHROME1' if c['mono1'] else 'MONOCHROME2'
     if c['pls']:
@@ -1393,6 +1778,9 @@ def _build_tpm(c):
     if 'ICCProfile' in ds:
         del ds.ICCProfile
     _fill_level(ds.SharedFunctionalGroupsSequence[0], c['shared'], True)
+    if c.get('perframe') is not None:
+        for it, lv in zip(ds.PerFrameFunctionalGroupsSequence, c['perframe']):
+            _fill_level(it, lv, True)
     if c['voiluts'] is not None:
         ds.VOILUTSequence = [_mk_lut_obj(l, 'VOILUT') for l in c['voiluts']]
     return hd.Image.from_dataset(ds)
@@ -1450,8 +1838,19 @@ def _call_kw(c):
     return kw
 
 
+class _Observed(Exception):
+    """a harness-level observation that is reported as the outcome of the call (rendered as Err(kind))"""
+
+
+def _check_dtype(arr, dtype):
+    import numpy as np
+    if arr.dtype != np.dtype(dtype):
+        raise _Observed(f'WrongDtype: {arr.dtype} returned for dtype={dtype}')
+
+
 def _canon_frames(out, c):
     """several frames: float32 runs are only observed as 'ok' as a whole"""
+    _check_dtype(out, c['dtype'])
     if c['dtype'] == 'float32':
         return 'ok'
     return [_canon(out[i], c['dtype']) for i in range(out.shape[0])]
@@ -1472,6 +1871,7 @@ def _check_slice_order(vol, c):
 
 def _canon(arr, dtype):
     """array -> flat list; float32 results are only observed as 'ok'"""
+    _check_dtype(arr, dtype)
     if dtype == 'float32':
         return 'ok'
     return [x for x in arr.reshape(-1).tolist()]
@@ -1529,11 +1929,92 @@ def _palette_raw(c):
     return (n, c['first'], bits), chans
 
 
+def _apply_unchanged(fn, arr):
+    """fn(arr) for a caller-owned input array: the array must be left as it was"""
+    keep = arr.tolist()
+    out = fn(arr)
+    if arr.tolist() != keep:
+        raise _Observed('CallerArrayModified: the input array handed to apply was changed')
+    return out
+
+
+def _catch(fn):
+    try:
+        return catch(fn)
+    except _Observed as e:
+        return Err(str(e))
+
+
+def _hist_kw(c, dtype):
+    return _call_kw(dict(c, dtype=dtype))
+
+
+def _hist_op(im, c, op):
+    """one operation of a history on the image object im"""
+    import numpy as np
+    n = len(c['frames'])
+    o = op['op']
+    if o == 'touch':
+        return np.asarray(im.pixel_array).reshape(n, -1).tolist()
+    if o == 'stored':
+        return np.asarray(im.get_stored_frame(op['fi'] + 1)).reshape(-1).tolist()
+    kw = _hist_kw(c, op['dtype'])
+    cc = dict(c, dtype=op['dtype'])
+    if o == 'frame':
+        return _canon(im.get_frame(op['fi'] + 1, **kw), op['dtype'])
+    if o == 'frames':
+        return _canon_frames(im.get_frames([i + 1 for i in op['fis']], **kw), cc)
+    if o == 'volume':
+        vol = im.get_volume(**kw)
+        bad = _check_slice_order(vol, c)
+        if bad:
+            raise _Observed('SliceOrder: ' + bad)
+        return _canon_frames(vol.array, cc)
+    if o == 'tpm':
+        out = im.get_total_pixel_matrix(**kw)
+        nr, nc = c['grid']
+        th, tw = c['rows'], c['cols']
+        return _canon_frames(out.reshape(nr, th, nc, tw).transpose(0, 2, 1, 3).reshape(nr * nc, th, tw), cc)
+    raise ValueError(o)
+
+
+def _run_hist(c):
+    """every operation of the history on ONE object, each observed (an error of one operation is its outcome)"""
+    import numpy as np
+    import highdicom as hd
+    if c['api'] == 'series_hist':
+        series = _build_series(c)
+        order = _vol_order(c)
+        outs = []
+        for op in c['ops']:
+            def f(op=op):
+                if op['op'] == 'touch':
+                    return [np.asarray(series[i].pixel_array).reshape(-1).tolist() for i in order]
+                vol = hd.get_volume_from_series(series, **_hist_kw(c, op['dtype']))
+                bad = _check_slice_order(vol, c)
+                if bad:
+                    raise _Observed('SliceOrder: ' + bad)
+                return _canon_frames(vol.array, dict(c, dtype=op['dtype']))
+            outs.append(_catch(f))
+        return outs
+    im = _build_tpm(c) if c.get('grid') else _build_image(c)[0]
+    return [_catch(lambda op=op: _hist_op(im, c, op)) for op in c['ops']]
+
+
 def run_impl(c):
+    try:
+        return _run_impl(c)
+    except _Observed as e:
+        return Err(str(e))
+
+
+def _run_impl(c):
     import numpy as np
     warnings.filterwarnings('ignore')
     import highdicom as hd
     k = c['kind']
+    if k in MONO_KINDS and c.get('api') in ('hist', 'series_hist'):
+        return _catch(lambda: _run_hist(c))
     if k in MONO_KINDS:
         def f():
             im, px = _build_image(c)
@@ -1595,7 +2076,7 @@ def run_impl(c):
                 th, tw = c['rows'], c['cols']
                 tiles = out.reshape(nr, th, nc, tw).transpose(0, 2, 1, 3).reshape(nr * nc, th, tw)
                 return _canon_frames(tiles, c)
-        return catch(f)
+        return _catch(f)
     if k == 'palette':
         def f():
             im = _build_palette(c)
@@ -1619,7 +2100,7 @@ def run_impl(c):
                 d = [int(x) for x in lut.LUTDescriptor]
                 return [d[0], d[1], d[2], _nbytes(lut.LUTData), catch(lambda: _summary(lut.lut_data.tolist(), c))]
             if c['op'] == 'apply':
-                return lut.apply(_xarr(c['xs'], 'i8', c.get('xlayout'))).tolist()
+                return _apply_unchanged(lut.apply, _xarr(c['xs'], 'i8', c.get('xlayout'))).tolist()
             if c['op'] == 'scaled':
                 out = lut.get_scaled_lut_data(output_range=(float(F(c['yrange'][0])), float(F(c['yrange'][1]))),
                                               invert=c['invert'])
@@ -1628,7 +2109,7 @@ def run_impl(c):
                 return out.tolist()
             if c['op'] == 'inverted':
                 return lut.get_inverted_lut_data().tolist()
-        return catch(f)
+        return _catch(f)
     if k == 'lut_layout':
         def f():
             arr, _ = _mem_array(c['data'], 'u1' if c['bits'] == 8 else 'u2', c['layout'])
@@ -1642,7 +2123,8 @@ def run_impl(c):
             raw = lut.LUTData
             raw = list(raw) if isinstance(raw, (bytes, bytearray)) else [int(raw) % 256, int(raw) // 256]
             return [d[0], d[1], d[2], len(raw), _summary(raw, c), catch(lambda: _summary(lut.lut_data.tolist(), c)),
-                    catch(lambda: lut.apply(_xarr(c['xs'], c.get('xcode', 'i8'), c.get('xlayout'))).tolist())]
+                    _catch(lambda: _apply_unchanged(lut.apply, _xarr(c['xs'], c.get('xcode', 'i8'),
+                                                                     c.get('xlayout'))).tolist())]
         return catch(f)
     if k == 'lut_big':
         data = _gen_data(c)
@@ -1691,10 +2173,11 @@ def run_impl(c):
             if c['luts'] is not None:
                 kw['voi_luts'] = [_mk_lut_obj(l, 'VOILUT') for l in c['luts']]
             t = hd.VOILUTTransformation(**kw)
-            return t.apply(_xarr(c['xs'], 'i4', c.get('xlayout')),
-                           output_range=(float(F(c['yrange'][0])), float(F(c['yrange'][1]))),
-                           voi_transform_selector=c['sel'], invert=c['invert'], prefer_lut=c['prefer_lut']).tolist()
-        return catch(f)
+            return _apply_unchanged(
+                lambda a: t.apply(a, output_range=(float(F(c['yrange'][0])), float(F(c['yrange'][1]))),
+                                  voi_transform_selector=c['sel'], invert=c['invert'], prefer_lut=c['prefer_lut']),
+                _xarr(c['xs'], 'i4', c.get('xlayout'))).tolist()
+        return _catch(f)
     if k == 'rwvm_apply':
         def f():
             from pydicom.sr.coding import Code
@@ -1711,17 +2194,18 @@ def run_impl(c):
                     tab = _mem_array(tab, 'f8', c['tlayout'])[0]      # the table as a numpy array in a layout
                 t = hd.pm.RealWorldValueMapping(value_range=(int(r['first']), int(r['last'])),
                                                 lut_data=tab, **kw)
-            return t.apply(_xarr(c['xs'], 'i4', c.get('xlayout'))).tolist()
-        return catch(f)
+            return _apply_unchanged(t.apply, _xarr(c['xs'], 'i4', c.get('xlayout'))).tolist()
+        return _catch(f)
     if k == 'window':
         def f():
             from highdicom.pixels import apply_voi_window
-            return apply_voi_window(_xarr([float(F(x)) for x in c['xs']], 'f8', c.get('xlayout')),
-                                    float(F(c['c'])), float(F(c['w'])),
-                                    voi_lut_function=c['fn'],
-                                    output_range=(float(F(c['yrange'][0])), float(F(c['yrange'][1]))),
-                                    invert=c['invert']).tolist()
-        return catch(f)
+            # (float64 in, float64 out: the one call in which the window could work on the caller's array)
+            return _apply_unchanged(
+                lambda a: apply_voi_window(a, float(F(c['c'])), float(F(c['w'])), voi_lut_function=c['fn'],
+                                           output_range=(float(F(c['yrange'][0])), float(F(c['yrange'][1]))),
+                                           invert=c['invert']),
+                _xarr([float(F(x)) for x in c['xs']], 'f8', c.get('xlayout'))).tolist()
+        return _catch(f)
     raise ValueError(k)
 
 
@@ -1912,6 +2396,28 @@ def _sigmoid_keys_mono(c):
     return keys
 
 
+def _hop_term(c, op):
+    """one operation of a history as a term of type hop iread / hop sread"""
+    o = op['op']
+    if o == 'touch':
+        return 'HTouch'
+    if o == 'stored':
+        return f"(HRead (IStored {op['fi']}))"
+    st = _b(op['dtype'] == 'float32')
+    dt = _dtype_term(op['dtype'])
+    if o == 'frame':
+        return f"(HRead (IFrame {st} {dt} {op['fi']}))"
+    if o == 'frames':
+        return f"(HRead (IFrames {st} {dt} {zl(op['fis'])}))"
+    if o == 'volume':
+        return f"(HRead (IPixels {st} {dt} {zl(_vol_order(c))}))"
+    if o == 'tpm':
+        return f"(HRead (IPixels {st} {dt} {zl(list(range(len(c['frames']))))}))"
+    if o == 'series':
+        return f"(HRead (SVolume {st} {dt}))"
+    raise ValueError(o)
+
+
 def coq_term(c):
     k = c['kind']
     if k in MONO_KINDS:
@@ -1920,6 +2426,17 @@ def coq_term(c):
         args = (f"{tab} {_dataset_term(c)} {_flags_term(c['flags'])} {_sel_term(c['rsel'])} {_sel_term(c['vsel'])} "
                 f"{qlit(F(c['yrange'][0]))} {qlit(F(c['yrange'][1]))} {_dtype_term(c['dtype'])} {frames}")
         st = '_status' if c['dtype'] == 'float32' else ''
+        if c['api'] == 'hist':
+            hargs = (f"{tab} {_dataset_term(c)} {_flags_term(c['flags'])} {_sel_term(c['rsel'])} {_sel_term(c['vsel'])} "
+                     f"{qlit(F(c['yrange'][0]))} {qlit(F(c['yrange'][1]))} {frames}")
+            return f"(run_history {hargs} [{'; '.join(_hop_term(c, op) for op in c['ops'])}])"
+        if c['api'] == 'series_hist':
+            order = _vol_order(c)
+            dss = '[' + '; '.join(_dataset_term(_slice_case(c, i)) for i in order) + ']'
+            px = '[' + '; '.join(zl(c['frames'][i]) for i in order) + ']'
+            return (f"(run_series_history {tab} {_flags_term(c['flags'])} {_sel_term(c['rsel'])} {_sel_term(c['vsel'])} "
+                    f"{qlit(F(c['yrange'][0]))} {qlit(F(c['yrange'][1]))} {dss} {px} "
+                    f"[{'; '.join(_hop_term(c, op) for op in c['ops'])}])")
         if c['api'] == 'get_frames':
             return f"(run_get_frames{st} {args} {zl(_fis(c))})"
         if c['api'] in ('get_volume', 'tpm'):
@@ -2260,9 +2777,54 @@ def oracle(c, out):
     return _oracle(c, out)
 
 
+OBSERVED = ('WrongDtype', 'CallerArrayModified', 'SliceOrder')
+
+
+def _oracle_hist(c, outs):
+    """every operation of a history is judged on its own: a read = the stored values (as WRITTEN into
+    PixelData) through the stages, whatever was done with the object before; .pixel_array /
+    get_stored_frame = the stored values"""
+    if isinstance(outs, Err):
+        return f'history could not be run: {outs}'
+    if len(outs) != len(c['ops']):
+        return f'{len(outs)} results for {len(c["ops"])} operations'
+    order = _vol_order(c) if c.get('zs') else None
+
+    def before(k):
+        return ' -> '.join(o['op'] + (f"[{o['dtype']}]" if 'dtype' in o else '') for o in c['ops'][:k]) or 'nothing'
+    for k, (op, out) in enumerate(zip(c['ops'], outs)):
+        o = op['op']
+        if o == 'touch':
+            want = [c['frames'][i] for i in order] if c['api'] == 'series_hist' else c['frames']
+            m = None if out == want else (f'pixel_array returns {out} but the stored values are {want}: reading '
+                                          'transformed frames changed the stored values')
+        elif o == 'stored':
+            m = None if out == c['frames'][op['fi']] else (f'get_stored_frame({op["fi"] + 1}) returns {out} but '
+                                                          f'{c["frames"][op["fi"]]} was stored')
+        elif o == 'frame':
+            m = _oracle(dict(c, kind='mono', api='get_frame', dtype=op['dtype'], fi=op['fi']), out)
+        elif o == 'frames':
+            m = _oracle(dict(c, kind='mono_mf', api='get_frames', dtype=op['dtype'], fis=op['fis']), out)
+        elif o == 'volume':
+            m = _oracle(dict(c, kind='mono_vol', api='get_volume', dtype=op['dtype']), out)
+        elif o == 'tpm':
+            m = _oracle(dict(c, kind='tpm', api='tpm', dtype=op['dtype']), out)
+        elif o == 'series':
+            m = _oracle(dict(c, kind='series', api='series', dtype=op['dtype']), out)
+        else:
+            m = f'unknown operation {o}'
+        if m:
+            return f'operation {k + 1} ({o}{"[" + op["dtype"] + "]" if "dtype" in op else ""}) after {before(k)}: {m}'
+    return None
+
+
 def _oracle(c, out):
     import numpy as np
     k = c['kind']
+    if isinstance(out, Err) and out.kind.split(':')[0] in OBSERVED:
+        return f'{out.kind}'
+    if k in MONO_KINDS and c.get('api') in ('hist', 'series_hist'):
+        return _oracle_hist(c, out)
     if k in MONO_KINDS:
         if c['api'] != 'get_frame':
             # several frames in one call: frame k of the output is frame fis[k] of the image
@@ -2583,6 +3145,18 @@ def _shrink_layouts(c):
 
 def shrink(c):
     k = c['kind']
+    if k in MONO_KINDS and c.get('api') in ('hist', 'series_hist'):
+        # histories: fewer operations first, then plainer dtypes
+        ops = c['ops']
+        if len(ops) > 1:
+            for i in range(len(ops)):
+                yield dict(c, ops=ops[:i] + ops[i + 1:])
+        for i, op in enumerate(ops):
+            if op.get('dtype') not in (None, 'float64'):
+                yield dict(c, ops=ops[:i] + [dict(op, dtype='float64')] + ops[i + 1:])
+            if op['op'] in ('frames', 'volume', 'tpm'):
+                for j in range(len(c['frames'])):
+                    yield dict(c, ops=ops[:i] + [{'op': 'frame', 'dtype': op['dtype'], 'fi': j}] + ops[i + 1:])
     yield from _shrink_layouts(c)
     if k == 'lut_layout':
         if c.get('file'):
@@ -2595,7 +3169,7 @@ def shrink(c):
                 yield dict(c, data=c['data'][:i] + c['data'][i + 1:])
         if c['first'] != 0:
             yield dict(c, first=0, xs=[x - c['first'] for x in c['xs']])
-    if k in MONO_KINDS and c.get('api') == 'series':
+    if k in MONO_KINDS and c.get('api') in ('series', 'series_hist'):
         yield from _shrink_series(c)
         return
     if k in MONO_KINDS:
